@@ -363,6 +363,8 @@ func routingSweeps(r rm.Router, tier string, lite bool) []sweep {
 	}
 	if !lite {
 		out = append(out, wideSweep(r))
+		// (MX) extension methods whose names contain one another, 2-3 routes on one template in every order
+		out = append(out, sweep{"MX", r, mxTables(), crossReqs([]h.Req{{Segs: []string{"m", "1"}}, {Segs: []string{"m"}}}, append([]string{"POST"}, c17MXMethods...), rs.PathSweepHeaders[:1], false)})
 	}
 	if only := os.Getenv("VERIF_ONLY_SWEEP"); only != "" {
 		var f []sweep
